@@ -1,5 +1,7 @@
 (* C06 — Replies are correlated with and addressed to the requesting client.  Statements only. *)
 From PSA Require Import gen.GoFacts model.Bytes model.Layer model.Dhcp model.Server spec.SpecCodec proofs.DhcpProofs proofs.ServerProofs.
+From PSA Require Import spec.Monitors.
+From PSA Require Import spec.WireHyps spec.WireExample proofs.WireProofs proofs.WireInv proofs.WireHypsProofs proofs.WireExampleProofs.
 Open Scope N_scope.
 
 (* OFFER/ACK: for every transaction id, flag word, assigned address, hardware address up to 16 bytes and
@@ -38,6 +40,30 @@ Theorem C06_at_most_one_reply : forall c t r src dst m o t',
   accept_request c t r src dst m o = RAcc t' -> (length (r_outs r) <= 1)%nat.
 Proof. exact at_most_one_reply. Qed.
 Print Assumptions C06_at_most_one_reply.
+
+(* ON THE WIRE, over whole histories.  The acceptor of model/Server.v is what every run compares the implementation with,
+   round by round (tag 101).  For every configuration whose option lists fit an option area and every finite sequence of
+   rounds (received byte strings, ARP situations, observed frames and instants): if the acceptor accepts it from the initial
+   table, then mon_C06 - the property as read off the frames by the independent decoders - holds: at most one reply per
+   message; each reply verifies (IPv4 header checksum, UDP checksum), is a BOOTREPLY from the server's address, port 67 to 68,
+   echoes transaction id and hardware address and names the server; OFFER/ACK echo the flags and go to the broadcast
+   addresses iff the flag is set, else to the assigned address at the client's hardware address; a NAK goes to IP broadcast. *)
+Theorem C06_on_the_wire : forall c h, cfg_wire_ok c -> Forall wf_round h -> accepted c h -> mon_C06 c h = true.
+Proof. exact accepted_history_c06. Qed.
+Print Assumptions C06_on_the_wire.
+
+(* the premises are boolean conditions (spec/WireHyps.v) that the check evaluates on every history it generates (tag 220) *)
+Theorem C06_premises_decidable : forall c h, wire_hyps c h = true ->
+  cfg_wire_ok c /\ cfg_srv_ok c /\ Forall wf_round h /\ seq_times 0%Z h /\ (0 <= hold_ns <= c_lease c)%Z /\ (0 <= req_hold_ns <= c_lease c)%Z.
+Proof. exact wire_hyps_sound. Qed.
+Print Assumptions C06_premises_decidable.
+
+(* ... and they are met, with acceptance, by a recorded history of the real server (OFFER, ACK, NAK, silent rounds) *)
+Theorem C06_wire_nonvacuous : exists c h, wire_example = Some (c, h) /\
+  cfg_wire_ok c /\ cfg_srv_ok c /\ Forall wf_round h /\ seq_times 0%Z h /\ (0 <= hold_ns <= c_lease c)%Z /\ (0 <= req_hold_ns <= c_lease c)%Z /\
+  accepted c h /\ length h = 6%nat /\ length (events c h) = 2%nat /\ length (flat_map r_outs h) = 3%nat.
+Proof. exact wire_example_premises. Qed.
+Print Assumptions C06_wire_nonvacuous.
 
 Example C06_nonvacuous :
   let c := {| c_self_ip := 167772161; c_self_mac := [2; 0; 0; 0; 0; 1]; c_lease := 60000000000;
